@@ -393,8 +393,8 @@ def _audit_directed(rng):
     yield from _checked(_case(rng, sv, 5, quota='hare', tags=['directed']))
     yield from _checked(_case(rng, [[[[0, 1, 2, 3], 4], num_str(8 + r(0, 3))], [[[1, 2, 4]], '5'], [[4, [0, 3]], '3'], [[2], '2']],
                               r(2, 4), tags=['directed']))
-    yield from _checked(_case(rng, exhausted_quota_profile(rng), 2, tags=['directed']))
-    yield from _checked(_case(rng, exhausted_quota_profile(rng), 3, quota='hare', tags=['directed']))
+    yield from _checked(_case(rng, exhausted_quota_profile(rng), 4, tags=['directed']))
+    yield from _checked(_case(rng, exhausted_quota_profile(rng), 4, method='hare', tags=['directed']))
     # 7. constructor options in non-default form, each with an input on which it matters
     yield from _checked(_case(rng, _coalition_profile(rng, 5), 2, tags=['directed'], quota_form='callable'))
     yield _case(rng, _coalition_profile(rng, 4), 2, quota=None, tags=['directed'])
@@ -465,8 +465,9 @@ def _random_case(rng):
 def generate(rng, tier):
     for c in _directed(rng):
         yield c
-    for c in _audit_directed(rng):
-        yield c
+    for _ in range(12 if tier == 'quick' else 60):      # each directed shape at least a dozen times per run (checklist item 9)
+        for c in _audit_directed(rng):
+            yield c
     N = 1800 if tier == "quick" else 30000
     for _ in range(N):
         c = _random_case(rng)
